@@ -121,3 +121,92 @@ theorem segFold_eq_foldl (op : α → α → α) (g : Nat → α) (lo n : Nat) :
   | succ n ih => simp [segFold, ih, List.range_succ, List.foldl_append]
 
 end SgVerif.C29
+
+namespace SgVerif.C29
+variable {α : Type}
+
+/-! ### recursive doubling keeps the rank order: after `k` rounds new rank `nr` holds the ordered fold of its block -/
+
+theorem rdbVal_eq_segFold (op : α → α → α) (hA : ∀ a b c, op (op a b) c = op a (op b c)) (g : Nat → α) (k nr : Nat) :
+    rdbVal op g k nr = segFold op g (nr - nr % 2 ^ k) (2 ^ k - 1) := by
+  induction k generalizing nr with
+  | zero => simp [rdbVal, segFold, Nat.mod_one]
+  | succ k ih =>
+    have hB : 0 < 2 ^ k := Nat.pos_of_ne_zero (by simp)
+    have hdm := Nat.div_add_mod nr (2 ^ k)
+    have hmod : nr % (2 ^ k * 2) = nr % 2 ^ k + 2 ^ k * (nr / 2 ^ k % 2) := Nat.mod_mul
+    have hlt := Nat.mod_lt nr hB
+    rw [Nat.pow_succ]
+    simp only [rdbVal, rdbPartner]
+    by_cases hbit : nr / 2 ^ k % 2 = 1
+    · -- bit k set: partner = nr - 2^k, lower block first
+      have hq : 1 ≤ nr / 2 ^ k := Nat.pos_of_ne_zero (by intro h0; rw [h0] at hbit; simp at hbit)
+      have hge : 2 ^ k * 1 ≤ 2 ^ k * (nr / 2 ^ k) := Nat.mul_le_mul_left _ hq
+      have hpm : (nr - 2 ^ k) % 2 ^ k = nr % 2 ^ k := by
+        have : nr = (nr - 2 ^ k) + 2 ^ k := by omega
+        conv => rhs; rw [this, Nat.add_mod_right]
+      simp only [hbit, if_true]
+      have hp : nr - 2 ^ k < nr := by omega
+      simp only [hp, if_true]
+      rw [ih (nr - 2 ^ k), ih nr, hpm, hmod, hbit]
+      have e1 : nr - 2 ^ k - nr % 2 ^ k = (nr - (nr % 2 ^ k + 2 ^ k * 1)) := by omega
+      have e2 : nr - nr % 2 ^ k = (nr - (nr % 2 ^ k + 2 ^ k * 1)) + (2 ^ k - 1) + 1 := by omega
+      have e3 : 2 ^ k * 2 - 1 = (2 ^ k - 1) + (2 ^ k - 1) + 1 := by omega
+      rw [e1, e3, segFold_append op hA, ← e2]
+    · have hbit0 : nr / 2 ^ k % 2 = 0 := by omega
+      have hpm : (nr + 2 ^ k) % 2 ^ k = nr % 2 ^ k := Nat.add_mod_right _ _
+      simp only [hbit, if_false]
+      have hp : ¬ (nr + 2 ^ k < nr) := by omega
+      simp only [hp, if_false]
+      rw [ih (nr + 2 ^ k), ih nr, hpm, hmod, hbit0]
+      have e1 : nr + 2 ^ k - nr % 2 ^ k = (nr - nr % 2 ^ k) + (2 ^ k - 1) + 1 := by omega
+      have e3 : 2 ^ k * 2 - 1 = (2 ^ k - 1) + (2 ^ k - 1) + 1 := by omega
+      have e4 : nr - (nr % 2 ^ k + 2 ^ k * 0) = nr - nr % 2 ^ k := by omega
+      rw [e1, e3, segFold_append op hA, e4]
+
+end SgVerif.C29
+
+namespace SgVerif.C29
+variable {α : Type}
+
+/-- the pre-phase only brackets neighbours: folding the `g` values = folding the `x` values -/
+theorem segFold_rdbPre (op : α → α → α) (hA : ∀ a b c, op (op a b) c = op a (op b c)) (x : Nat → α) (rem t : Nat) :
+    segFold op (rdbPre op x rem) 0 t = segFold op x 0 (if t < rem then 2 * t + 1 else t + rem) := by
+  induction t with
+  | zero =>
+    by_cases h : 0 < rem
+    · simp [segFold, rdbPre, h]
+    · have : rem = 0 := by omega
+      subst this
+      simp [segFold, rdbPre]
+  | succ t ih =>
+    have step : ∀ (f : Nat → α) (n : Nat), segFold op f 0 (n + 1) = op (segFold op f 0 n) (f (n + 1)) := by
+      intro f n; simp [segFold]
+    rw [step, ih]
+    by_cases h1 : t + 1 < rem
+    · have h0 : t < rem := by omega
+      simp only [h0, h1, if_true, rdbPre]
+      have e : 2 * (t + 1) + 1 = (2 * t + 1) + 1 + 1 := by omega
+      have e1 : 2 * (t + 1) = 2 * t + 1 + 1 := by omega
+      rw [e, e1]
+      generalize 2 * t + 1 = n
+      rw [step, step, hA]
+    · simp only [h1, if_false, rdbPre]
+      by_cases h0 : t < rem
+      · simp only [h0, if_true]
+        have e : t + 1 + rem = (2 * t + 1) + 1 := by omega
+        rw [e]
+        generalize 2 * t + 1 = n
+        rw [step]
+      · simp only [h0, if_false]
+        have e : t + 1 + rem = (t + rem) + 1 := by omega
+        rw [e]
+        generalize t + rem = n
+        rw [step]
+
+theorem reduceAll_range (op : α → α → α) (x : Nat → List α) (n : Nat) :
+    reduceAll op ((List.range (n + 1)).map x) = some (segFold (zipOp op) x 0 n) := by
+  rw [segFold_eq_foldl, List.range_succ_eq_map]
+  simp [reduceAll, List.map_map, Function.comp_def, Nat.add_comm]
+
+end SgVerif.C29
